@@ -99,8 +99,12 @@ fn split_grammar(text: &str, n: usize) -> Vec<String> {
 fn derive_input(step: &Step) -> TokenStream {
     let mut grammar = TokenStream::new();
     if step.source == "file" {
-        let p = Literal::string(&step.path);
-        grammar.extend(quote! { #[grammar = #p] });
+        // one derive may name several grammar files; they are concatenated in attribute order
+        let paths: Vec<String> = if step.pieces > 1 { (0..step.pieces).map(|k| step.path.replace(".pest", &format!(".{}-{}.pest", step.pieces, k))).collect() } else { vec![step.path.clone()] };
+        for p in paths {
+            let p = Literal::string(&p);
+            grammar.extend(quote! { #[grammar = #p] });
+        }
     } else {
         for piece in split_grammar(&step.text, step.pieces.max(1)) {
             let t = Literal::string(&piece);
